@@ -15,7 +15,8 @@ func init() {
 	Props["C20"].Conc = c20
 	// C13 (concurrent half): writes sample the clock, maintenance runs at later clock values.
 	c13 := &ConcOpts{
-		Profile: Profile{Prop: "C13", ForceExp: true, NoCustomExp: true, NoRef: true, Keys: [2]int{2, 10}},
+		Ticker: true, AimAdvance: true,
+		Profile: Profile{Prop: "C13", ForceExp: true, NoCustomExp: true, AccessBias: true, NoRef: true, Keys: [2]int{2, 10}},
 		OpW:     zeroExcept(map[string]int{"set": 26, "setifabsent": 4, "get": 8, "compute": 4, "invalidate": 4, "advance": 14, "cleanup": 6, "load": 3}),
 		Tasks:   [2]int{2, 4}, OpsPer: [2]int{4, 20}, Prefill: [2]int{0, 4},
 		Executors: []string{"default", "queued", "sync"}, SweepCheck: true,
@@ -69,6 +70,7 @@ func init() {
 	// C06 with expiry and a moving clock: operations sample the clock when they start, other tasks
 	// advance it meanwhile (reads near a deadline race with writes and sweeps).
 	c06exp := &ConcOpts{
+		Ticker: true, AimAdvance: true,
 		Profile: Profile{Prop: "C06", ForceExp: true, NoRef: true, Keys: [2]int{1, 5}},
 		OpW:     zeroExcept(map[string]int{"set": 24, "setifabsent": 6, "get": 12, "compute": 5, "computeifabsent": 3, "computeifpresent": 3, "invalidate": 5, "advance": 14, "cleanup": 5, "load": 3, "setexpires": 2}),
 		Tasks:   [2]int{2, 4}, OpsPer: [2]int{4, 20}, Prefill: [2]int{0, 4},
@@ -81,6 +83,7 @@ func init() {
 	expOps := zeroExcept(map[string]int{"set": 22, "setifabsent": 6, "get": 12, "getentry": 2, "compute": 5, "computeifabsent": 3, "computeifpresent": 3,
 		"invalidate": 5, "advance": 12, "cleanup": 4, "load": 3, "setexpires": 3, "setmax": 1, "invalidateall": 1, "hottest": 1, "coldest": 1, "bulkget": 1})
 	c05exp := &ConcOpts{
+		Ticker: true, AimAdvance: true,
 		Profile: Profile{Prop: "C05", ForceExp: true, NoRef: true, Keys: [2]int{2, 10}},
 		OpW:     expOps, Tasks: [2]int{2, 4}, OpsPer: [2]int{4, 22}, Prefill: [2]int{0, 6},
 		Executors:  []string{"default", "queued", "sync"},
@@ -88,6 +91,7 @@ func init() {
 	}
 	Props["C05"].Engines = append(Props["C05"].Engines, &concEngine{opts: c05exp})
 	c04exp := &ConcOpts{
+		Ticker: true, AimAdvance: true,
 		Profile: Profile{Prop: "C04", ForceExp: true, BoundOnly: true, NoRef: true, Keys: [2]int{3, 12}},
 		OpW:     expOps, Tasks: [2]int{2, 4}, OpsPer: [2]int{4, 22}, Prefill: [2]int{0, 8},
 		Executors: []string{"default", "queued", "sync"},
@@ -108,10 +112,11 @@ func init() {
 		NonTrivial: func(o *ConcOutcome) bool { return o.Switches > 4 && o.Probes["maintenance-configured"] > 0 },
 	}
 	Props["C14"].Engines = append(Props["C14"].Engines, &concEngine{opts: c14exp})
-	// C03 / C02 with an asynchronously moving clock: tasks advance the clock while operations of
+	// C02 with an asynchronously moving clock: tasks advance the clock while operations of
 	// other tasks are in flight (stale clock samples, reads that move deadlines, sweeps); per-key
 	// histories against the map with deadline intervals.
 	c03async := &ConcOpts{
+		Ticker: true, AimAdvance: true,
 		Profile: Profile{Prop: "C03", ForceExp: true, NoCustomExp: true, NoRef: true, Keys: [2]int{1, 3}},
 		OpW: zeroExcept(map[string]int{"set": 14, "setifabsent": 9, "get": 16, "getentry": 3, "getquiet": 2, "compute": 7, "computeifabsent": 5, "computeifpresent": 5,
 			"invalidate": 5, "setexpires": 2, "cleanup": 3, "advance": 12}),
@@ -119,9 +124,9 @@ func init() {
 		Executors: []string{"default", "sync", "queued"}, AsyncClock: true,
 		NonTrivial: func(o *ConcOutcome) bool { return o.Overlaps > 0 && o.SimTime > 0 },
 	}
-	Props["C03"].Engines = append(Props["C03"].Engines, &concEngine{opts: c03async})
-	// the same engine decides C02's "expiration appears as a removal" half: C02's first engine keeps
-	// expiry out of reach
+	// This engine belongs to C02 (linearizability with expiration; C02's first engine keeps expiry out
+	// of reach). C03 quantifies over interleavings "in which the clock only moves between
+	// operations", which is what its rounds engine does, so it does not run this one.
 	c02async := *c03async
 	c02async.Profile.Prop = "C02"
 	Props["C02"].Engines = append(Props["C02"].Engines, &concEngine{opts: &c02async})
@@ -131,10 +136,12 @@ func init() {
 	c20exp.Profile = Profile{Prop: "C20", Stats: true, ForceExp: true, NoRef: true, Keys: [2]int{2, 8}}
 	c20exp.OpW = zeroExcept(map[string]int{"set": 10, "get": 14, "getentry": 4, "load": 10, "bulkget": 4, "compute": 6, "computeifabsent": 4, "computeifpresent": 4,
 		"invalidate": 4, "getquiet": 2, "advance": 10, "cleanup": 3, "setexpires": 2})
+	c20exp.Ticker, c20exp.AimAdvance = true, true
 	c20exp.NonTrivial = func(o *ConcOutcome) bool { return o.Switches > 4 && o.Probes["atomic-events:Expiration"] > 0 }
 	Props["C20"].Engines = append(Props["C20"].Engines, &concEngine{opts: &c20exp})
 	c08exp := *Props["C08"].Conc
 	c08exp.Profile = Profile{Prop: "C08", ForceExp: true, Keys: [2]int{1, 4}}
 	c08exp.OpW = zeroExcept(map[string]int{"load": 28, "bulkget": 10, "refresh": 5, "bulkrefresh": 3, "set": 6, "invalidate": 5, "get": 5, "compute": 2, "advance": 10, "cleanup": 3})
+	c08exp.Ticker, c08exp.AimAdvance = true, true
 	Props["C08"].Engines = append(Props["C08"].Engines, &concEngine{opts: &c08exp})
 }
